@@ -18,6 +18,7 @@ List Call` (any arguments: removed handles, ids that never existed, snapshots th
 import Proofs.Lib1Raw
 import Proofs.Lib1Proj
 import Proofs.Lib1Blobs
+import Proofs.Lib1Clean
 
 namespace EngineModel.Properties.C11Lib1
 open EngineModel EngineModel.Lib.V1 EngineModel.Api
@@ -242,6 +243,23 @@ theorem C11_lib1_stored_blobs_decode (L : Lib1) (h : BlobsFix L) (id : Int) (r :
 theorem C11_lib1_stored_blobs_decode_reachable (o : FOps) (s : VSchema) (um up dir : Bytes) (cs : List Call) :
     BlobsFix (run o s (Lib1.empty s um up dir) cs) :=
   blobsFix_run o cs (libInv_empty s um up dir) (blobsFix_empty s um up dir)
+
+/-! ### the tracks package's `DbClean` on the composite -/
+
+/-- FULL STATEMENT (not provable: NaN is outside the quantifier of C01 / C06, and a track created from a snapshot with a NaN
+sample rate holds a beat-data blob that no longer passes the decode-after-encode guard): "`DbClean` after every history".
+PROVED PART: under the tracks package's float law, for every history whose `create_track` / `update` snapshots are NaN-free
+(`noNaNCalls cs = true`, decidable), every stored track is `Clean` — the hypothesis of the package's acceptance theorems
+(`v1_C06_accepts`: which setter calls return normally), which therefore apply in every such state of the composite. -/
+theorem C11_lib1_clean_after_every_history_partial (o : FOps) (hl : TracksV1.FloatLaw o) (s : VSchema) (um up dir : Bytes)
+    (cs : List Call) (hn : noNaNCalls cs = true) : TracksV1.DbClean (run o s (Lib1.empty s um up dir) cs).tr :=
+  clean_run o hl cs (libInv_empty s um up dir) (by intro id r h; cases h) hn
+
+/-- non-vacuity of `noNaNCalls` (the float law's own non-vacuity example is in Properties/C06V1Accept.lean). -/
+example : noNaNCalls [.createRootCrate [97], .createTrack { Snap.empty with relativePath := some [98], bpm := some 0x405e000000000000 },
+    .set 1 .bpm (some 0x7ff8000000000001), .update 1 { Snap.empty with relativePath := some [99] }, .removeTrack 1] = true ∧
+    noNaNCalls [.createTrack { Snap.empty with relativePath := some [98], bpm := some 0x7ff8000000000001 }] = false := by
+  decide +kernel
 
 /-- non-vacuity of `C11_lib1_stored_blobs_decode`: a reachable state with a stored PerformanceData row whose columns are
 within the size bounds (so all six conclusions apply). -/
